@@ -298,7 +298,7 @@ def simmpi_obj():
     return obj
 
 
-def build_harness(name, flags=(), sanitize=False, hooks=True):
+def build_harness(name, flags=(), sanitize=False, hooks=True, san="address,undefined"):
     """compile harness/<name>.cpp against /repo's *current* working tree and simmpi.
     Cached by content hash of /repo/include + harness + simmpi + flags."""
     src = os.path.join(HARNESS, name + ".cpp")
@@ -307,7 +307,7 @@ def build_harness(name, flags=(), sanitize=False, hooks=True):
     if hooks:
         fl.append("-D" + HOOK_DEFINE)
     if sanitize:
-        fl += ["-g", "-fsanitize=address,undefined", "-fno-sanitize-recover=all", "-fno-omit-frame-pointer"]
+        fl += ["-g", "-fsanitize=" + san, "-fno-sanitize-recover=all", "-fno-omit-frame-pointer"]
     key = hashlib.sha256((repo_hash() + _tree_hash([src, os.path.join(HARNESS, "hcommon.hpp")] if os.path.exists(os.path.join(HARNESS, "hcommon.hpp")) else [src])
                           + _tree_hash([os.path.join(SIMMPI, "simmpi.cpp"), os.path.join(SIMMPI, "mpi.h")])
                           + " ".join(fl)).encode()).hexdigest()[:20]
